@@ -5,6 +5,7 @@ import (
 	"encoding/hex"
 	"errors"
 	"fmt"
+	"math"
 	"math/big"
 	"testing"
 
@@ -117,7 +118,7 @@ func c40ReuseProbe(h *hdrFields, c *valCtx, freshValid bool) {
 
 func c40Run(h *hdrFields, c *valCtx, body *blockBody, blockBytes []byte) c40Verdict {
 	var v c40Verdict
-	res := c.validator().ValidateHeader(c.input(h))
+	res := c40ValidateTwice(c, h)
 	v.HV = res.Valid
 	c40ReuseProbe(h, c, res.Valid)
 	v.HVOut = res.VrfOutput
@@ -313,6 +314,9 @@ func TestC40(t *testing.T) {
 		"cryptographic negatives are sampled single-field neighbours of genuine headers",
 	)
 
+	// certificate helpers at special counter / period values and window edges
+	c40OpCertSpecials(rec)
+
 	wireRounds := rec.Pick(1, 2)
 	rec.Check(func(rt *rapid.T) {
 		c40ReuseDiffs, c40ReuseEvals = nil, 0
@@ -321,19 +325,34 @@ func TestC40(t *testing.T) {
 			if len(c40ReuseDiffs) > 0 && !rt.Failed() {
 				rec.Fail(rt, "reused-validator-verdict-differs", c40ReuseDiffs[0], map[string]any{"differences": c40ReuseDiffs})
 			}
+			if len(c40Notes) > 0 && !rt.Failed() {
+				n := c40Notes
+				c40Notes = nil
+				rec.Fail(rt, "history:purity", n[0], map[string]any{"observations": n})
+			}
+			c40Notes = nil
 		}()
 		era := rapid.SampledFrom(c40Eras).Draw(rt, "era")
 		rec.Class("era_" + era.Name)
-		keys, err := newPoolKeys(genSeed32(rt, "coldSeed"), genSeed32(rt, "vrfSeed"), genSeed32(rt, "kesSeed"))
+		coldSeed, vrfSeed, kesSeed := genSeed32(rt, "coldSeed"), genSeed32(rt, "vrfSeed"), genSeed32(rt, "kesSeed")
+		if rapid.IntRange(0, 15).Draw(rt, "zeroSeeds") == 0 {
+			coldSeed, vrfSeed, kesSeed = make([]byte, 32), make([]byte, 32), make([]byte, 32)
+			rec.Class("special_all_zero_seeds")
+		}
+		keys, err := newPoolKeys(coldSeed, vrfSeed, kesSeed)
 		if err != nil {
 			rt.Fatalf("harness: keys: %v", err)
 		}
 		f, fClass := genF(rt)
 		rec.Class(fClass)
 		total := rapid.Uint64Range(1, 45_000_000_000_000_000).Draw(rt, "totalStake")
+		if rapid.IntRange(0, 7).Draw(rt, "stakeSpecial") == 0 {
+			total = rapid.SampledFrom([]uint64{1, 2, 1<<63 - 1, 1 << 63, math.MaxUint64}).Draw(rt, "totalStakeSpecial")
+			rec.Class("special_total_stake")
+		}
 		pool := total
 		if rapid.Bool().Draw(rt, "partialStake") {
-			pool = total - rapid.Uint64Range(0, total*6/10).Draw(rt, "stakeGap")
+			pool = total - rapid.Uint64Range(0, total/10*6).Draw(rt, "stakeGap")
 			if pool == 0 {
 				pool = 1
 			}
@@ -349,7 +368,17 @@ func TestC40(t *testing.T) {
 			maxEvo = rapid.Uint64Range(1, 64).Draw(rt, "maxEvo")
 		}
 		kp := rapid.Uint32Range(70, 200000).Draw(rt, "opcertPeriod")
+		if rapid.IntRange(0, 7).Draw(rt, "slotSpecial") == 0 {
+			// slots close to the top of the int64 range: 2^42 slots per KES period, period just below 2^21
+			spk = 1 << 42
+			kp = rapid.Uint32Range(1<<21-200, 1<<21-70).Draw(rt, "opcertPeriodHigh")
+			rec.Class("special_slot_near_int64_max")
+		}
 		seq := rapid.Uint32Range(0, 1<<31).Draw(rt, "opcertCounter")
+		if rapid.IntRange(0, 2).Draw(rt, "counterSpecial") == 0 {
+			seq = rapid.SampledFrom([]uint32{0, 1, 1<<31 - 1, 1 << 31, 1<<31 + 1, 1<<32 - 2, 1<<32 - 1}).Draw(rt, "opcertCounterSpecial")
+			rec.Class("special_opcert_counter")
+		}
 		var evol uint64
 		switch rapid.IntRange(0, 3).Draw(rt, "evolKind") {
 		case 0:
@@ -370,7 +399,19 @@ func TestC40(t *testing.T) {
 		cur := uint64(kp) + evol
 		nonce := rapid.SliceOfN(rapid.Byte(), 32, 32).Draw(rt, "epochNonce")
 		prevHash := rapid.SliceOfN(rapid.Byte(), 32, 32).Draw(rt, "prevHash")
+		switch rapid.IntRange(0, 11).Draw(rt, "constantInputs") {
+		case 0:
+			nonce, prevHash = make([]byte, 32), make([]byte, 32)
+			rec.Class("special_zero_nonce_and_prev_hash")
+		case 1:
+			nonce = bytes.Repeat([]byte{0xff}, 32)
+			rec.Class("special_ff_nonce")
+		}
 		prevBlockNo := rapid.Uint64Range(0, 20_000_000).Draw(rt, "prevBlockNo")
+		if rapid.IntRange(0, 5).Draw(rt, "blockNoSpecial") == 0 {
+			prevBlockNo = rapid.SampledFrom([]uint64{0, 1<<32 - 1, 1 << 32, 1<<63 - 1, 1 << 63, math.MaxUint64 - 1}).Draw(rt, "prevBlockNoSpecial")
+			rec.Class("special_block_number")
+		}
 		major := rapid.Uint64Range(era.MajorLo, era.MajorHi).Draw(rt, "protoMajor")
 		minor := rapid.Uint64Range(0, 3).Draw(rt, "protoMinor")
 		var body *blockBody
@@ -395,7 +436,13 @@ func TestC40(t *testing.T) {
 		rmut := rapid.Uint64().Draw(rt, "mutationSteer")
 		gap := rapid.Uint64Range(1, 1000).Draw(rt, "slotGap")
 
-		// ---- find a slot of the KES period the pool leads (the builder decides)
+		// ---- find a slot of the KES period the pool leads (the builder decides). ONE
+		// builder object serves the whole search: its refusals are history for the
+		// header it finally produces.
+		lb, err := newC40LongBuilder(keys, ctx, oc, evol)
+		if err != nil {
+			rt.Fatalf("%v", err)
+		}
 		var hdr *hdrFields
 		tries := 0
 	search:
@@ -410,7 +457,7 @@ func TestC40(t *testing.T) {
 					continue
 				}
 				tries++
-				h, err := c40Build(keys, ctx, body, oc, evol, slot, major, minor)
+				h, err := lb.build(ctx, body, slot, major, minor)
 				if err == nil {
 					hdr = h
 					break search
@@ -491,6 +538,83 @@ func TestC40(t *testing.T) {
 		if err := refValidateCrypto(hdr, ctx); err != nil {
 			failc("built-header-rejected:harness-reference:"+mode, "the harness' independent VRF/KES/Ed25519 models reject the builder's header: "+err.Error(), nil)
 			return
+		}
+
+		// ---- the long-lived builder against fresh ones ------------------------------------
+		{
+			fresh, ferr := c40Build(keys, ctx, body, oc, evol, hdr.Slot, major, minor)
+			rec.Eval()
+			if ferr != nil {
+				failc("history:fresh-builder-refuses", fmt.Sprintf("a fresh BlockBuilder refuses the slot a builder with %d earlier calls accepted: %v", lb.calls-1, ferr), nil)
+				return
+			}
+			if !bytes.Equal(fresh.headerBytes(), hdr.headerBytes()) {
+				rec.Class("reused_builder_bytes_differ_from_fresh")
+				if vf := c40Run(fresh, ctx, body, nil); !vf.HV || !vf.ledgerAccepts() {
+					failc("history:fresh-builder-header-rejected", "a fresh BlockBuilder's header for the same input is rejected", map[string]any{"fresh_header": evi.Hex(fresh.headerBytes())})
+					return
+				}
+			}
+			// same builder: another context on the same slot (other nonce, other stake), then the original again
+			alt := *ctx
+			alt.EpochNonce = clone(ctx.EpochNonce)
+			flipIn(&alt.EpochNonce, int(rmut>>33)%256)
+			if rmut&(1<<32) != 0 && ctx.PoolStake > 1 {
+				alt.PoolStake = ctx.PoolStake/3 + 1
+			}
+			hAlt, eAlt := lb.build(&alt, body, hdr.Slot, major, minor)
+			fAlt, efAlt := c40Build(keys, &alt, body, oc, evol, hdr.Slot, major, minor)
+			rec.EvalN(2)
+			if !sameOutcome(eAlt, efAlt) {
+				failc("history:reused-builder-outcome-differs", fmt.Sprintf("for another epoch nonce/stake on the same slot the long-lived BlockBuilder says %v, a fresh one %v", eAlt, efAlt), map[string]any{"alt_nonce": evi.Hex(alt.EpochNonce), "alt_pool_stake": alt.PoolStake})
+				return
+			}
+			if eAlt == nil {
+				rec.Class("alt_context_also_leads")
+				if !alt.validator().ValidateHeader(alt.input(hAlt)).Valid {
+					failc("history:reused-builder-alt-header-rejected", "the long-lived BlockBuilder's header for another epoch nonce/stake on the same slot is rejected by ValidateHeader under that context", map[string]any{"alt_nonce": evi.Hex(alt.EpochNonce), "alt_pool_stake": alt.PoolStake, "alt_header": evi.Hex(hAlt.headerBytes())})
+					return
+				}
+				if !bytes.Equal(hAlt.headerBytes(), fAlt.headerBytes()) {
+					rec.Class("reused_builder_bytes_differ_from_fresh")
+				}
+			} else {
+				rec.Class("alt_context_does_not_lead")
+			}
+			// refused requests as history: slots that cannot be represented / cannot follow a block
+			for _, sl := range []uint64{math.MaxUint64, 1 << 63, 0} {
+				if _, e := lb.build(ctx, body, sl, major, minor); e == nil {
+					rec.Class(fmt.Sprintf("builder_builds_for_slot_%d", sl))
+				} else if !errors.Is(e, consensus.ErrNotSlotLeader) {
+					rec.Class("builder_refuses_extreme_slot")
+				}
+			}
+			again, eAgain := lb.build(ctx, body, hdr.Slot, major, minor)
+			rec.Eval()
+			if eAgain != nil {
+				failc("history:reused-builder-refuses-repeat", fmt.Sprintf("the BlockBuilder that produced the header refuses the identical input after building for another context: %v", eAgain), nil)
+				return
+			}
+			if !bytes.Equal(again.headerBytes(), hdr.headerBytes()) {
+				rec.Class("rebuild_bytes_differ")
+				if !ctx.validator().ValidateHeader(ctx.input(again)).Valid {
+					failc("history:rebuilt-header-rejected", "the header rebuilt from the identical input by the same BlockBuilder is rejected", map[string]any{"rebuilt_header": evi.Hex(again.headerBytes())})
+					return
+				}
+			} else {
+				rec.Class("rebuild_same_bytes")
+			}
+			// one decoded block / header object, verified repeatedly with rejections in between
+			ph, _ := blake2b.New(28, nil)
+			ph.Write(hdr.Issuer)
+			var pkh common.PoolKeyHash
+			copy(pkh[:], ph.Sum(nil))
+			ls := &poolLedgerState{Pools: map[common.PoolKeyHash]common.VrfKeyHash{pkh: common.VrfKeyHash(blake2b.Sum256(hdr.VrfKey))}}
+			if d := c40BlockObjectHistory(ctx, assembleBlock(hdr.headerBytes(), body), hdr.headerBytes(), common.VerifyConfig{SkipTransactionValidation: true, LedgerState: ls}); d != "" {
+				failc("history:block-object-verdict-differs", d, nil)
+				return
+			}
+			rec.EvalN(7)
 		}
 
 		// expectation helpers -------------------------------------------------------
